@@ -812,6 +812,9 @@ def set_page_type_computed_styles(page_type, html, style_for):
 
 
 def _includes_resume_at(resume_at, page_group_resume_at):
+    if page_group_resume_at is None:
+        # The page group is the whole document.
+        return True
     (page_child_index, page_child_resume_at), = page_group_resume_at.items()
     if resume_at is None or page_child_index not in resume_at:
         return False
@@ -832,7 +835,8 @@ def _update_page_groups(page_groups, resume_at, next_page, root_box):
             page_groups.pop(i - page_groups_length)
 
     # Add page groups.
-    if next_page['break'] == 'any' or not next_page['page']:
+    first_page = resume_at is None
+    if not next_page['page'] or (next_page['break'] == 'any' and not first_page):
         # We don’t have a forced page break or a named page.
         return
     if page_groups and page_groups[-1][0] == next_page['page']:
@@ -843,7 +847,20 @@ def _update_page_groups(page_groups, resume_at, next_page, root_box):
     # element corresponding to resume_at.
 
     # Find element corrensponding to resume_at.
-    page_group_resume_at = copy.deepcopy(resume_at)
+    if first_page:
+        # The first page starts with the root box.
+        if root_box.style['page'] == next_page['page']:
+            page_groups.append([next_page['page'], 0, None])
+            return
+        for child_index, child in enumerate(root_box.children):
+            if child.is_in_normal_flow():
+                break
+        else:
+            # Shouldn’t happen.
+            return
+        page_group_resume_at = {child_index: None}
+    else:
+        page_group_resume_at = copy.deepcopy(resume_at)
     current_resume_at = page_group_resume_at
     current_element = root_box
     while True:
